@@ -11,6 +11,12 @@ type PropSpec struct {
 }
 
 var propSpecs = map[string]*PropSpec{
+	"C17": {
+		Patterns:    []string{"./..."},
+		Level:       "proof",
+		Explanation: "typestate contracts on database.Begin/Commit/Rollback/Close (transaction open <=> d.Transaction != nil; ghost counters of successful commits and rollbacks) and anchored assertions at every return of scripting.Handler: nothing left open, success reported only after a successful commit of all-successful operations, nothing committed on a reported failure",
+		TrustedBase: []string{"database/sql: Tx.Commit / Tx.Rollback end the transaction when they return nil; SQLite/Postgres atomicity of a committed or rolled-back transaction", "faults of Rollback itself are outside the property's quantifier (assumed to succeed at the handler's call sites)"},
+	},
 	"C20": {
 		Patterns:    []string{"./..."},
 		Level:       "proof",
